@@ -228,8 +228,16 @@ Print Assumptions C07_decode_agrees.
 (* ---------------------------------------------------------------- the property *)
 
 Definition C07_statement : Prop :=
-  (* the two loops *)
+  (* the two loops, the line sources and assemble_from_iterable (the four clauses of C07_partial) *)
   (forall st p t, queue_step st p t = if try_index_error p t then Ok (st, []) else stream_step st p t) /\
+  (forall ins st outs fin, asm_run stream_step st ins = (outs, Ok fin) -> asm_run queue_step st ins = (outs, Ok fin)) /\
+  (forall ls, Forall passes_filter ls -> Forall (fun l => ~ In 10 l) ls ->
+     let lines := map terminated ls in
+     iter_source lines = lines /\ bytestream_source lines = lines /\ binaryio_source (concat lines) = lines /\
+     iter_source ls = ls /\ bytestream_source ls = ls) /\
+  (forall l l', Permutation l l' -> NoDup (map a_frag_num l) ->
+     assembled_view (assemble_from_iterable l) = assembled_view (assemble_from_iterable l')) /\
+  (* the two loops on byte lines *)
   (forall uni use_tbq lines st, rd_run uni queue_step use_tbq st lines = rd_run uni stream_step use_tbq st lines) /\
   (* the six front-ends, wrappers and tag blocks included (equality of the whole delivery records) *)
   (forall uni use_tbq ls cs, lines_ok ls -> Forall passes_filter ls -> chunking cs (concat ls) ->
@@ -269,17 +277,26 @@ Definition C07_statement : Prop :=
 
 Theorem C07 : C07_statement.
 Proof.
-  exact (conj queue_step_eq (conj rd_loops_equal (conj six_frontends_agree (conj terminators_irrelevant
-        (conj rd_wrappers_correct decode_agrees))))).
+  exact (conj queue_step_eq (conj runs_agree (conj frontends_agree (conj assemble_perm
+        (conj rd_loops_equal (conj six_frontends_agree (conj terminators_irrelevant
+        (conj rd_wrappers_correct decode_agrees)))))))).
 Qed.
 Print Assumptions C07.
 
-(* C07_partial is a corollary of the parts of C07 (the remaining two clauses are C07_frontends_agree, C07_assemble_perm) *)
-Theorem C07_partial_from_C07 : C07_statement ->
+(* C07_partial (above) is the conjunction of the first four clauses of C07 *)
+Theorem C07_implies_partial : C07_statement ->
   (forall st p t, queue_step st p t = if try_index_error p t then Ok (st, []) else stream_step st p t) /\
-  (forall uni use_tbq lines st, rd_run uni queue_step use_tbq st lines = rd_run uni stream_step use_tbq st lines).
-Proof. exact (fun H => conj (proj1 H) (proj1 (proj2 H))). Qed.
-Print Assumptions C07_partial_from_C07.
+  (forall ins st outs fin, asm_run stream_step st ins = (outs, Ok fin) -> asm_run queue_step st ins = (outs, Ok fin)) /\
+  (forall ls, Forall passes_filter ls -> Forall (fun l => ~ In 10 l) ls ->
+     let lines := map terminated ls in
+     iter_source lines = lines /\ bytestream_source lines = lines /\ binaryio_source (concat lines) = lines /\
+     iter_source ls = ls /\ bytestream_source ls = ls) /\
+  (forall l l', Permutation l l' -> NoDup (map a_frag_num l) ->
+     assembled_view (assemble_from_iterable l) = assembled_view (assemble_from_iterable l')).
+Proof.
+  exact (fun H => conj (proj1 H) (conj (proj1 (proj2 H)) (conj (proj1 (proj2 (proj2 H))) (proj1 (proj2 (proj2 (proj2 H))))))).
+Qed.
+Print Assumptions C07_implies_partial.
 
 (* ---------------------------------------------------------------- non-vacuity of part 2 *)
 
